@@ -325,6 +325,45 @@ def alloc_ref(votes, n, quota_name):
     return elected
 
 
+def alloc_follow(votes, order, n, quota_name):
+    """follow the election order the implementation reports: at every round the seated candidate must have a greatest
+    weighted score sum among the candidates not yet seated (ties allowed - any of the leaders may be taken), then one
+    quota of its strongest supporters is spent. -> None | (round, winner, its sum, best other, that sum, was_tied_before)"""
+    cur = [[dict(b), q(w)] for b, w in votes]
+    total = sum(q(w) for _, w in votes)
+    quota = Fraction(total, n) if quota_name == 'hare' else Fraction(int(Fraction(total, n + 1)) + 1)
+    elected, tied_before = [], set()
+    for i, win in enumerate(order):
+        sums = {}
+        for b, w in cur:
+            for cc, sc in b.items():
+                if cc not in elected:
+                    sums[cc] = sums.get(cc, 0) + q(sc) * w
+        top = max(sums.values()) if sums else 0
+        mine = sums.get(win, 0)
+        if mine < top:
+            other = max(sums, key=lambda k: sums[k])
+            return (i + 1, win, mine, other, top, win in tied_before)
+        tied_before |= {cc for cc, x in sums.items() if x == top and cc != win}
+        elected.append(win)
+        rem = quota
+        for level in sorted({q(b[win]) for b, w in cur if win in b and w > 0}, reverse=True):
+            grp = [x for x in cur if win in x[0] and q(x[0][win]) == level and x[1] > 0]
+            size = sum(x[1] for x in grp)
+            if size > rem:
+                for x in grp:
+                    x[1] *= Fraction(size - rem, size)
+                break
+            for x in grp:
+                x[1] = Fraction(0)
+            rem -= size
+            if rem == 0:
+                break
+        cur = [[{cc: sc for cc, sc in b.items() if cc != win}, w] for b, w in cur if w > 0]
+        cur = [x for x in cur if x[0]]
+    return None
+
+
 def spec(c, io, mo):
     v = common.parse_sx(io)
     u = c['unit']
@@ -416,6 +455,14 @@ def spec(c, io, mo):
         if ref is not None and len(v[1]) == c['n'] and sorted(ref) != sorted(v[1]):
             c['_class'] = 'alloc-ref'
             return 'allocated score elects %s, the reference count elects %s' % (v[1], ref)
+    if u == 'alloc' and v[0] == 0 and c.get('mode', 'sel') == 'sel' and not c.get('prev') and not c.get('max') and not any(isinstance(r, list) for r in v[1]):
+        bad = alloc_follow(c['votes'], v[1], c['n'], c['quota'])
+        if bad is not None:
+            rnd, win, mine, other, top, tied = bad
+            # known finding C12-allocated-score-tie-second: the tie branch seats every tied leader without re-running the maximum
+            c['_class'] = 'alloc-tie-second' if tied else 'alloc-ref'
+            return ('allocated score seats %s in round %d with weighted score sum %s while %s has %s%s'
+                    % (win, rnd, mine, other, top, ' (it was level with an earlier winner when that one was seated)' if tied else ''))
     if u == 'alloc' and v[0] == 0:
         cands = {cc for b, _ in c['votes'] for cc, _ in b}
         res = v[1]
@@ -450,7 +497,7 @@ def known_class(c, io, mo):
         return None          # not the recorded behaviour any more (allocated score: the model reproduces the crash / shape)
     if c.get('_class') == 'alloc-crash' and common.parse_sx(io)[1] not in (common.E['VALUE'], common.E['INDEX']):
         return None
-    return {'trunc-empty': 'C12-truncation-empties', 'mj-default-stats': 'C12-mj-default-stats', 'alloc-crash': 'C12-allocated-score-crash', 'alloc-shape': 'C12-allocated-score-crash',
+    return {'trunc-empty': 'C12-truncation-empties', 'mj-default-stats': 'C12-mj-default-stats', 'alloc-crash': 'C12-allocated-score-crash', 'alloc-shape': 'C12-allocated-score-crash', 'alloc-tie-second': 'C12-allocated-score-tie-second',
             'star-crash': 'C12-star'}.get(c.get('_class'))
 
 
